@@ -590,6 +590,7 @@ type c13Gen_ struct {
 	nstruct int
 	nid     int
 	sources []string // regular sources created so far (for reuse)
+	dirs    []string // directory leaves created so far
 	stats   map[string]int
 	rich    bool
 	// > 0 while generating a value that must match its type
@@ -717,6 +718,7 @@ func (g *c13Gen_) fileLeaf(t *c13Type) hx.JV {
 		p := w + "/" + name
 		g.fs = append(g.fs, c13Entry{'D', p, ""}, c13Entry{'F', p + "/inner.txt", g.content()},
 			c13Entry{'D', p + "/sub", ""}, c13Entry{'F', p + "/sub/deep", g.content()})
+		g.dirs = append(g.dirs, p)
 		return hx.JStr(p)
 	case c < 20:
 		g.count("leaf_regular")
@@ -794,6 +796,16 @@ func (g *c13Gen_) fileLeaf(t *c13Type) hx.JV {
 	case c == 38:
 		g.count("leaf_relative_path")
 		return hx.JStr("w/" + name)
+	case c == 39 && g.r.Intn(2) == 0:
+		if len(g.dirs) > 0 && g.r.Intn(2) == 0 && os.Getenv("C13_OVERLAP") != "" {
+			// a file inside a directory that is itself an (earlier) output
+			g.count("leaf_inside_directory_output")
+			return hx.JStr(hx.Pick(g.r, g.dirs) + "/inner.txt")
+		}
+		g.count("leaf_directory_trailing_slash")
+		p := w + "/" + name
+		g.fs = append(g.fs, c13Entry{'D', p, ""}, c13Entry{'F', p + "/inner.txt", g.content()})
+		return hx.JStr(p + "/")
 	default:
 		g.count("leaf_unclean_path")
 		p := w + "/" + name
@@ -954,6 +966,7 @@ func c13Gen(tier string, r *hx.Rng) {
 			o := []hx.JKV{}
 			for j, k := range []string{"k1", "k two", "é"}[:1+r.Intn(3)] {
 				_ = j
+				g.dirs = nil
 				g.sources = nil // forks of a map call are visited in random order: no shared sources
 				o = append(o, hx.JKV{Key: k, Val: g.structValue(ms)})
 			}
